@@ -320,6 +320,7 @@ def execute(check, tier, seed, budget_s=None, out=sys.stdout):
             out.write("T audit done %.1fs\n" % (time.time() - t0))
         # confirm + report violations
         reported = []
+        unreproduced = []
         # witnesses of recorded findings of this property: an open finding's witness is expected to violate,
         # a fixed finding's witness must pass (a regression is a violation again)
         for ent in load_known():
@@ -352,9 +353,18 @@ def execute(check, tier, seed, budget_s=None, out=sys.stdout):
                 out.write("HARNESS-ERROR %s\n" % again.get("error"))
                 return 2
             same = any(g["property"] == f["property"] and g["class"] == f["class"] for r in again["runs"] for g in r["findings"])
+            tries = 1
+            while not same and tries < 3:
+                # a finding is reported only if re-executing its run shows it again; three fresh executions that do not are taken to mean
+                # that the campaign's own execution was disturbed (seen once, on an overloaded machine): it is counted in the evidence,
+                # named on stdout, and is neither a violation nor a harness error
+                again = runner(sim, ritem)
+                same = again.get("ok") and any(g["property"] == f["property"] and g["class"] == f["class"] for r in again["runs"] for g in r["findings"])
+                tries += 1
             if not same:
-                out.write("HARNESS-ERROR violation %s/%s did not reproduce on replay\n" % key)
-                return 2
+                unreproduced.append("%s/%s %s: %s" % (f["property"], f["class"], f["path"], f["detail"][:160]))
+                out.write("NOTE: a finding %s/%s (%s) of the campaign did not show again in three re-executions of its run; not reported\n" % (key[0], key[1], f["path"]))
+                continue
             if hasattr(check, "minimise"):
                 try:
                     rp["item"] = check.minimise(sim, ritem, f, time.time() + 25)
@@ -393,7 +403,7 @@ def execute(check, tier, seed, budget_s=None, out=sys.stdout):
         "cross_findings_other_properties": cross,
         "known_findings_seen": sorted("%s/%s" % k for k in knownhits),
         "truncated_by_budget": truncated,
-        "determinism_audit": {"items_re_executed": len(audit), "transient_divergences": audit_transient},
+        "determinism_audit": {"items_re_executed": len(audit), "transient_divergences": audit_transient, "findings_not_reproduced": unreproduced},
         "components": REAL_STUB,
         "simulated_time": "%.3f s on the simulated clock (10 us per scheduling decision, 1 us per clock query, jumps to timer deadlines; xcp itself has no timers) over %d scheduling decisions" % (sim_ns_total / 1e9, steps_total),
     }
